@@ -10,6 +10,7 @@ import (
 	"strings"
 
 	"verif/internal/corpus"
+	"verif/internal/gram"
 	"verif/internal/report"
 )
 
@@ -235,6 +236,7 @@ func c17(c *ctx) {
 			continue
 		}
 		ins := append(append([]string{}, s.samples...), hostileInputs(r, s.samples, nin, false)...)
+		ins = append(ins, derivedInputs(r, s.grammar(c.env.Repo), s.samples, nin)...)
 		// token-level mutations: delete / duplicate / swap whitespace-separated words of the samples
 		for k := 0; k < nin/2; k++ {
 			w := strings.Fields(s.samples[r.Intn(len(s.samples))])
@@ -267,8 +269,23 @@ func c17(c *ctx) {
 	if err != nil {
 		die("shipped run: %v", err)
 	}
+	shipG := map[string]*gram.Grammar{}
+	for _, s := range ships {
+		shipG[s.name] = s.grammar(c.env.Repo)
+	}
 	for i := 0; i+3 < len(sres); i += 4 {
 		p := sres[i] // plain
+		if !p.Lost && p.Fatal == "" && p.Panic == "" {
+			if why := refJudge(shipG[sks[i].s.name], sks[i].in, &p); why != "" {
+				in := sks[i].in
+				if len(in) > 2000 {
+					in = in[:2000] + "...(truncated)"
+				}
+				c.run.Violate("shipped-ref:"+report.Hash(sks[i].s.name, sks[i].in), sks[i].s.pegPath+": "+why, map[string]any{"grammar": sks[i].s.pegPath, "input": in})
+			} else {
+				c.run.Count("shipped_results_checked_against_reference", 1)
+			}
+		}
 		key := func(r *corpus.Res) string {
 			if r.Fatal != "" || r.Panic != "" {
 				return "CRASH " + r.Panic + firstLine(r.Fatal)
@@ -325,7 +342,7 @@ func c17(c *ctx) {
 	requireCov(c, "bootstrap_stages_run", "bootstrap_chain_reproduces_checked_in_front_end", "front_end_comparisons", "texts_accepted_by_all", "texts_rejected_by_all", "shipped_parser_comparisons", "shipped_inputs_rejected", "shipped_inputs_accepted", "shipped_test_packages_passing")
 	c.run.Rule = "(a) the six generations of bootstrap.bash are run stage by stage on a scratch copy of the tree (every stage must build and run, the last two must agree below the header line, and after the final 'go tool peg -inline -switch peg.peg' the file must be byte-identical to the checked-in peg.peg.go); " +
 		"(b) the front end is regenerated from peg.peg under {}, -inline, -switch, -inline -switch (-strict, silent), each compiled into a driver, and all are fed the same texts as the checked-in front end (shipped grammars, generated grammars with spelling variants, syntax-level mutants, random strings): accept/reject, rule tree, emitted code and diagnostics must agree for every text; " +
-		"(c) every shipped grammar must generate silently under -strict for the four combinations; the four parsers must agree (verdict, tokens, printed tree) on the sample inputs and on byte- and word-level mutations of them; the shipped *_test.go files must pass against freshly generated parsers. " +
+		"(c) every shipped grammar must generate silently under -strict for the four combinations; the four parsers must agree (verdict, tokens, printed tree) on the sample inputs, on byte- and word-level mutations of them, on random derivations from the grammar's start rule and on fragments derived from arbitrary rules spliced into the samples, and the option-free parser must agree with the reference interpreter run on the grammar read back from the .peg file; the shipped *_test.go files must pass against freshly generated parsers. " +
 		"distinct_nontrivial = bootstrap stages passed + distinct texts accepted by all front ends (counted once) + distinct mutated inputs rejected by the shipped parsers."
 	c.run.Assume("a -noast front end is not a front end (main.go needs Execute); the furthest-failure token is not compared across -switch (DESIGN 6.2)")
 }
